@@ -375,17 +375,14 @@ func c08Boundary(c *Ctx) {
 					}
 				}
 			case *ast.BinaryExpr:
-				l, r := strings.ToLower(core.ExprStr(x.X)), strings.ToLower(core.ExprStr(x.Y))
-				if !(strings.Contains(l, "deadlinenano") && r == "nownano") {
-					return true
-				}
-				switch x.Op {
-				case token.GTR, token.LEQ, token.GEQ, token.LSS, token.EQL, token.NEQ:
-				default:
+				_, op, other, isCmp := core.Oriented(x, func(e ast.Expr) bool {
+					return strings.Contains(strings.ToLower(core.ExprStr(e)), "deadlinenano")
+				})
+				if !isCmp || strings.ToLower(core.ExprStr(other)) != "nownano" {
 					return true
 				}
 				conds = append(conds, core.ExprStr(x))
-				if x.Op != token.GTR && x.Op != token.LEQ {
+				if op != token.GTR && op != token.LEQ {
 					okAll = false // >= / < would treat deadline == now as fresh
 				}
 			}
@@ -548,11 +545,14 @@ func c08Heap(c *Ctx) {
 	bounds := map[string]string{}
 	ast.Inspect(f.Body, func(m ast.Node) bool {
 		be, ok := m.(*ast.BinaryExpr)
-		if !ok || be.Op != token.LSS {
+		if !ok {
 			return true
 		}
-		if id, ok := be.X.(*ast.Ident); ok && (id.Name == "left" || id.Name == "right") {
-			bounds[id.Name] = core.ExprStr(be.Y)
+		if x, op, y, ok := core.Oriented(be, func(e ast.Expr) bool {
+			id, isId := e.(*ast.Ident)
+			return isId && (id.Name == "left" || id.Name == "right")
+		}); ok && op == token.LSS {
+			bounds[x.(*ast.Ident).Name] = core.ExprStr(y)
 		}
 		return true
 	})
